@@ -152,6 +152,10 @@ fn txn_alphabet() -> Vec<&'static str> {
         // an amount-less posting next to explicit postings in which one commodity already cancels: the inferred amount
         // carries a zero-valued X next to a non-zero Y, and a conversion walks over both entries of that map
         "2024/01/23 r\n  A  1 X\n  A  2 Y\n  C  -1 X\n  B\n\n",
+        // failing: a residual of exactly two commodities on the same side (the forgotten minus sign of an exchange)
+        "2024/01/24 s\n  A  1 X\n  B  2 Y\n\n",
+        // two commodities whose names differ only in letter case, and a command that asks for a third spelling
+        "2024/01/25 u\n  A  1 Zz\n  A  1 zZ\n  A  1 Z\n  B\n\n",
         "2024/01/18 k\n  H  1 P @ 5.1111111111111111111111111111 Z\n  H  1 Q @ 4.0000000000000000000000000004 Z\n  H  -1 R @ 4.0000000000000000000000000004 Z\n  B\n\n",
     ]
 }
@@ -172,6 +176,8 @@ fn commands(path: &str) -> Vec<Vec<String>> {
         // an expression that leaves a zero-valued commodity next to a non-zero one, converted
         s(&["okane", "primitive", "eval", "--date", "2024-02-01", "-X", "Z", "-f", path, "1 X - 1 X + 2 Y"]),
         s(&["okane", "balance", "-X", "Z", "--historical", "--now", "2024-02-01", path]),
+        // a target that is no commodity's exact name (but equals two of them up to letter case)
+        s(&["okane", "balance", "-X", "ZZ", "--now", "2024-02-01", path]),
     ]
 }
 
